@@ -10,5 +10,5 @@ trap 'git -C /repo worktree remove --force "$WT" >/dev/null 2>&1; rm -rf "$WT" "
 O=$(mktemp -d /tmp/anndb-try-out.XXXXXX); mkdir -p $O/evidence
 git -C "$WT" apply "$D" || { echo "DOES NOT APPLY"; exit 2; }
 for p in "$@"; do
-  ./bin/anndbcheck -repo "$WT" -verif /verif -out $O -prop $p 2>&1 | grep -E "^(VIOLATED|UNDECIDED)|quick:" | cut -c1-${W:-300}
+  ${BIN:-./bin/anndbcheck} -repo "$WT" -verif /verif -out $O -prop $p 2>&1 | grep -E "^(VIOLATED|UNDECIDED)|quick:" | cut -c1-${W:-300}
 done
